@@ -363,6 +363,12 @@ const NATS: [&str; 4] = ["reachable", "firewalled", "port-rewritten", "port-rema
 const VOTES: [&str; 3] = ["all-truthful", "one-liar", "tie"];
 const CONFS: [&str; 3] = ["adaptive", "server_mode()", "public_ip()"];
 
+thread_local! {
+    /// The application on the observed node calls `bootstrapped()` (a lookup of its own id) at
+    /// minutes 10 and 24 of the timeline.
+    static APP_CALLS: std::cell::Cell<bool> = const { std::cell::Cell::new(false) };
+}
+
 struct DOut {
     problems: Vec<(String, String)>,
     steps: u64,
@@ -413,6 +419,8 @@ fn part_d(chooser: Chooser, nat: usize, votes: usize, conf: usize, faults: bool,
     let mut remapped = false;
     let mut lookup_issued = false;
     let mut probe_sent = false;
+    let app_calls = APP_CALLS.with(|c| c.get());
+    let mut app_calls_made = 0u64;
     let mut probe_reply: Option<Option<i128>> = None;
     let probe_tid = [0x70u8, 0x72, 0x6f, 0x62];
     loop {
@@ -424,13 +432,17 @@ fn part_d(chooser: Chooser, nat: usize, votes: usize, conf: usize, faults: bool,
             let _ = w.call_find_node(a, [0x6Cu8; 20].into());
             lookup_issued = true;
         }
+        if app_calls && app_calls_made < 2 && w.now >= start + [10 * MIN, 24 * MIN][app_calls_made as usize] {
+            let _ = w.call_bootstrapped(a);
+            app_calls_made += 1;
+        }
         if !probe_sent && w.now >= start + 32 * MIN {
             // a peer the node has talked to pings it at its current external address
             let to = w.nodes[a].cfg.addr();
             w.send_raw(net.eps[0].addr, to, krpc::q_ping(&probe_tid, &net.eps[0].id));
             probe_sent = true;
         }
-        let stop = [start + 5 * MIN, start + 6 * MIN, start + 32 * MIN, h].into_iter().filter(|t| *t > w.now).min().unwrap_or(h);
+        let stop = [start + 5 * MIN, start + 6 * MIN, start + 10 * MIN, start + 24 * MIN, start + 32 * MIN, h].into_iter().filter(|t| *t > w.now).min().unwrap_or(h);
         let Some(ev) = w.step(stop) else {
             if stop >= h {
                 break;
@@ -647,6 +659,19 @@ fn run(tier: Tier, shard: usize, nshards: usize, _seed: u64) -> Partial {
                 for (k, d) in o.problems {
                     out.violation(k, d, json!({"part": "d", "nat": nat, "votes": votes, "conf": conf, "choices": []}));
                 }
+                if conf != 1 {
+                    // the same timeline while the application looks its own id up (bootstrapped())
+                    // at minutes 10 and 24: the mode switch still happens at a 15-minute refresh
+                    APP_CALLS.with(|c| c.set(true));
+                    let (_, o) = part_d(Chooser::default_run(), nat, votes, conf, false, false);
+                    APP_CALLS.with(|c| c.set(false));
+                    out.add("executions", 1);
+                    out.add("timelines_with_own_id_lookups", 1);
+                    out.add("transitions", o.steps);
+                    for (k, d) in o.problems {
+                        out.violation(format!("{k}/with-own-id-lookups"), format!("[bootstrapped() called at minutes 10 and 24] {d}"), json!({"part": "d", "nat": nat, "votes": votes, "conf": conf, "choices": [], "app_calls": true}));
+                    }
+                }
                 if !tier.is_quick() && conf == 0 {
                     let mut ex = crate::explore::Explorer::new(1, (0, 1));
                     ex.explore(&mut |chooser, _| {
@@ -687,9 +712,12 @@ fn replay(v: &Value) -> Result<Option<Violation>, String> {
         Some("d") => {
             let choices: Vec<u32> = v.get("choices").and_then(|c| c.as_array()).map(|a| a.iter().filter_map(|x| x.as_u64().map(|x| x as u32)).collect()).unwrap_or_default();
             let g = |k: &str| v.get(k).and_then(|x| x.as_u64()).map(|x| x as usize);
+            let app = v.get("app_calls").and_then(|x| x.as_bool()).unwrap_or(false);
+            APP_CALLS.with(|c| c.set(app));
             let (_, o) = part_d(Chooser::new(choices.clone()), g("nat").ok_or("nat")?, g("votes").ok_or("votes")?, g("conf").ok_or("conf")?, !choices.is_empty(), false);
+            APP_CALLS.with(|c| c.set(false));
             for (k, d) in o.problems {
-                out.violation(k, d, v.clone());
+                out.violation(if app { format!("{k}/with-own-id-lookups") } else { k }, d, v.clone());
             }
         }
         _ => return Err("part".into()),
